@@ -522,7 +522,7 @@ pub fn run(cfg: &Cfg, rep: &mut Report) -> PropMeta {
     crate::props::c03::c06_hook(cfg, rep);
     PropMeta {
         id: "C06", level: "exploration",
-        rule: "(A) every step of random BFV/BGV/CKKS operation programs is executed in all three API forms (in-place on a clone, destination argument over a dirty destination, value-returning): results must be bit-identical, operands unchanged (also when one object is passed twice), result valid by is_valid_for and by an independent predicate; (B) single-field corruptions (residue = q, q+1, 2^64-1; foreign / other-context / key-level parms id; size 1 / 17; buffer one word short / long; scale; correction factor; unexpanded seed; level and representation mismatch; invalid plaintexts; seeded keys) x every public operation taking that operand: must panic. distinct = distinct (scheme, op, state) variant cells and (scheme, corruption, op, state) refusal cells (C) plaintext-valued operations: transform_plain_to_ntt, mod_switch_to_next_plain and mod_switch_plain_to for every (source, target) level pair of chains with 2..6 primes (N = 4..64, a few cases at 1024 / 4096), each in its three forms: results valid by an independent predicate and by is_valid_for, forms bit-identical, one-step and multi-step switching agree, operand unchanged, result accepted by multiply_plain / add_plain on a ciphertext of the target level",
+        rule: "(A) every step of random BFV/BGV/CKKS operation programs is executed in all three API forms (in-place on a clone, destination argument over a dirty destination, value-returning): results must be bit-identical, operands unchanged (also when one object is passed twice), result valid by is_valid_for and by an independent predicate; (B) single-field corruptions (residue = q, q+1, 2^64-1; foreign / other-context / key-level parms id; size 1 / 17; buffer one word short / long; scale; correction factor; unexpanded seed; level and representation mismatch; invalid plaintexts; seeded keys) x every public operation taking that operand: must panic. distinct = distinct (scheme, op, state) variant cells and (scheme, corruption, op, state) refusal cells (C) plaintext-valued operations: transform_plain_to_ntt, mod_switch_to_next_plain and mod_switch_plain_to for every (source, target) level pair of chains with 2..6 primes (N = 4..64, a few cases at 1024 / 4096), each in its three forms: results valid by an independent predicate and by is_valid_for, forms bit-identical, one-step and multi-step switching agree, operand unchanged, result accepted by multiply_plain / add_plain on a ciphertext of the target level. (B') the refusal matrix calls the in-place and destination forms of every operation as well as the value-returning ones, and a second group runs the whole matrix on CKKS contexts (states fresh / size 3 / lower level / last level), where rescale_to_next, rescale_to, rotate_vector and complex_conjugate are reachable",
         assumptions: vec!["any panic counts as a refusal".into(), "calls that are documented no-ops (mod_switch_to the current level, relinearize at size 2, rotate by 0, add_many of one operand) are excluded".into()],
         exhaustive: false, floor: 2000,
     }
